@@ -84,6 +84,16 @@ func (s *Server) ConnectWith(c *memnet.Conn) *Conn {
 	return &Conn{C: c}
 }
 
+// AnyWedged reports whether the watchdog expired on any connection of this server.
+func (s *Server) AnyWedged() bool {
+	for _, c := range s.conns {
+		if c.EverWedged {
+			return true
+		}
+	}
+	return false
+}
+
 // Stop closes the server and waits for Serve to return; it returns Serve's error.
 func (s *Server) Stop() error {
 	for _, c := range s.conns {
